@@ -179,16 +179,21 @@ def run(chk):
         # tells the callback): the target's string, occurring before and after the point where the cap is hit, must still be found
         if i < (1 if tier == "quick" else 3):
             cap = int(vlib.consts().get("YR_MAX_STRING_MATCHES", 1000000))
-            vs = bytes(r.choice(b"BCDFGHJKLMNP") for _ in range(8))
+            vss = [bytes(r.choice(b"BCDFGHJKLMNP") for _ in range(8)) + bytes([0x30 + k]) for k in range(4)]
             noisy_b = r.choice(b"xyz")
-            victim = 'rule victim { strings: $v = "%s" $w = "never77" condition: $v or $w }\n' % vs.decode()
+            # every string of the target occurs before AND after the point where the cap is hit (the bookkeeping of "this string is ignored for
+            # the rest of the scan" is per string: whatever index it uses must be the noisy string's, in every position of the rule list)
+            victim = 'rule victim { strings: %s condition: all of them }\n' % " ".join('$v%d = "%s"' % (k, v.decode()) for k, v in enumerate(vss))
             noisy = 'private rule noisy { strings: $n = "%c" condition: #n > 10 }\n' % noisy_b
-            pad0 = 'rule pad0 { condition: true }\n' * 0
-            big = vs + b"." + bytes([noisy_b]) * (cap + 50) + b"." + vs + b"." + bytes([noisy_b]) * 20 + vs
+            allv = b".".join(vss)
+            big = allv + b"." + bytes([noisy_b]) * (cap + 50) + b"." + allv + b"." + bytes([noisy_b]) * 20 + allv
             sb = ["scan " + hx(big)]
             cases.append(("S%d" % i, ["newcompiler", "add " + hx(victim.encode()), "getrules", "scanner 0"] + sb))
             cases.append(("T%d" % i, ["newcompiler", "add " + hx((victim + noisy).encode()), "getrules", "scanner 0"] + sb))
             cases.append(("U%d" % i, ["newcompiler", "add " + hx((noisy + victim).encode()), "getrules", "scanner 0"] + sb))
+            padr = "rule padq0 { condition: true }\nrule padq1 { condition: false }\n"
+            cases.append(("V%d" % i, ["newcompiler", "add " + hx((padr + victim + noisy).encode()), "getrules", "scanner 0"] + sb))
+            cases.append(("W%d" % i, ["newcompiler", "add " + hx((victim + padr + noisy).encode()), "getrules", "scanner 0"] + sb))
             metas[i] = (victim, noisy, len(big))
         # H/I: rule sets with a wildcard (`all of (pk_*)`) select rules of their OWN namespace only: namespace nsB alone (H) vs after a
         # namespace nsA that has rules with the same prefix and other verdicts (I)
@@ -278,11 +283,11 @@ def run(chk):
         if not bad and i in metas:
             victim, noisy, blen = metas[i]
             ls_ = [rule_result(l, "victim") for l in out.get("S%d" % i, []) if l.startswith("scan msgs=")]
-            for v in "TU":
+            for v in "TUVW":
                 lt = [rule_result(l, "victim") for l in out.get("%s%d" % (v, i), []) if l.startswith("scan msgs=")]
                 if len(ls_) != 1 or lt != ls_:
                     chk.violation("company:match-cap-of-another-string", "rule victim alone: %s ; compiled %s a rule whose string exceeds the per-string match cap: %s"
-                                  % ([x[:120] if x else x for x in ls_], "before" if v == "T" else "after", [x[:120] if x else x for x in lt]),
+                                  % ([x[:120] if x else x for x in ls_], {"T": "before", "U": "after", "V": "after two other rules and before", "W": "two rules before"}[v], [x[:120] if x else x for x in lt]),
                                   {"target": victim, "companion": noisy, "buffer": "victim string, '.', %d x the companion's byte, '.', victim string, ... (%d bytes)" % (blen - 60, blen),
                                    "variant": v, "output_alone": [l[:200] for l in out.get("S%d" % i, [])[-3:]], "output_company": [l[:200] for l in out.get("%s%d" % (v, i), [])[-3:]],
                                    "how": "h_scan: newcompiler; add <victim + noisy | noisy + victim>; getrules; scanner 0; scan <buffer>"})
